@@ -684,10 +684,10 @@ func backendFaults(r *ev.Run) {
 					r.Count("backend_fetch_fault_cases", 1)
 				}
 			}
-			// a write times out (never applied / applied with the response lost) while another client inserts a
+			// a write fails (service error; time-out, never applied; time-out, applied with the response lost) while another client inserts a
 			// record under the same key: Store may report true only if the table then holds its record
 			if b.writeFault != nil {
-				for k, fk := range []string{"timeout-lost", "timeout-applied"} {
+				for k, fk := range []string{"timeout-lost", "timeout-applied", ""} {
 					for _, rival := range []bool{false, true} {
 						id3 := fmt.Sprintf("%s-t%d%v", id, k, rival)
 						mine := &appencryption.EnvelopeKeyRecord{Created: want.Created, EncryptedKey: []byte("mine-" + id3), ParentKeyMeta: want.ParentKeyMeta}
